@@ -20,7 +20,9 @@ func init() {
 				cfgs = []string{"linux", "linux-race", "darwin", "linux-arm64", "freebsd"}
 			}
 			for _, c := range cfgs {
-				r.use(c)
+				if r.useOpt(c) == nil {
+					continue
+				}
 				c19(r)
 			}
 		})
